@@ -17,6 +17,11 @@ RULE = ("type pairs: ALL pairs of type expressions over two names with <=3 wrapp
         "types differ / distinct (edit kind, element kind) with a reported change")
 ASSUMPTIONS = [
     "Ty.inner/Ty.name totalise Python attribute errors; exceptions of the real predicates are compared by the correspondence on all small pairs",
+    "the Lean model diffs BY-NAME DESCRIPTIONS of the two schemas: memos / snapshots that live schema objects keep (field_map, argument_map, ...) do not "
+    "exist in it, so nothing changes on the Lean side for edits made on live objects; that `diff_schema` reads the CURRENT attributes is checked by the "
+    "direct oracle only: class `live-object` (C20_schemas.live_object_stage: directive.arguments, field.arguments, type.fields, union.types, "
+    "object.interfaces, input_type.fields edited through the public attributes after construction, fresh and after a first diff + validate, against a "
+    "schema built in the edited form) and the history cases",
 ]
 GENERATED_FILES = ["PyGqlModel/Generated/Differ.lean"]
 TRUSTED = ["py2lean.py mini-translator (Python ast -> Lean step functionals) for _is_safe_input_type_change/_is_safe_output_type_change"]
